@@ -76,10 +76,35 @@ func drawPlan(t *rapid.T, g *gspec.Grammar, nFaults int, pure bool, panics bool)
 	return p
 }
 
+// longInput turns one case in 150 into a long one: the grammar's Loop entry (it works its
+// way through any input, trying the other entries at every offset) over 300 to 9000 bytes
+// made of samples of the other entries, joined by newlines (hundreds of lines) or by nothing
+// (lines of thousands of columns). Sizes cross 256, 1024, 4096 and 8192.
+func longInput(t *rapid.T, x *X, c *Case) {
+	g := x.G.Spec
+	if g.Rule("Loop") == nil || g.Profile == "leftrec" || gspec.U(t, 150, "longinput") != 0 {
+		return
+	}
+	target := gspec.Pick(t, []int{300, 1100, 4200, 9000}, "longlen")
+	sep := gspec.Pick(t, []string{"\n", "", " "}, "longsep")
+	var in []byte
+	for i := 0; len(in) < target && i < 4000; i++ {
+		piece := gspec.SampleInput(t, g, gspec.Pick(t, g.Entries, "longentry"), alphabetFor(g), 48)
+		if len(piece) > 64 {
+			continue // (no big rules here: they have their own sizes)
+		}
+		in = append(in, piece...)
+		in = append(in, sep...)
+	}
+	c.Input = in
+	c.Entry = "Loop"
+}
+
 func drawBase(t *rapid.T, x *X, maxLen int) *Case {
 	g := x.G.Spec
 	c := &Case{Entry: drawEntry(t, g, false)}
 	c.Input = gspec.SampleInput(t, g, entryRuleName(g, c.Entry), alphabetFor(g), maxLen)
+	longInput(t, x, c)
 	if gspec.U(t, 3, "fname") == 0 {
 		c.Opts.Filename = gspec.Pick(t, []string{"f.txt", "dir/a b.peg", "100%d/%s.txt", "f.txt"}, "filename")
 	}
